@@ -54,10 +54,10 @@ func genC13(repo string) (string, error) {
 
 	// skeletons: where the validation, the storage writes and the in-memory commit sit
 	opt := goast.SkelOpt{Calls: set("adjust", "buildRuleList", "trim", "savePatch", "commit", "beginPatch", "tryCommitPatch",
-		"adjustRule", "setRule", "deleteRule", "setGroup", "deleteGroup", "iterateRules",
+		"adjustRule", "checkGroupID", "newRuleConfig", "setRule", "deleteRule", "setGroup", "deleteGroup", "iterateRules",
 		"SaveRule", "DeleteRule", "SaveRuleGroup", "DeleteRuleGroup", "LoadRules", "LoadRuleGroups", "isDefault",
 		"loadRules", "loadGroups"),
-		Assigns: set("ruleList", "initialized", "rules", "groups", "keyType"), Conds: true}
+		Assigns: set("ruleList", "initialized", "rules", "groups", "keyType", "ruleConfig"), Conds: true}
 	for _, fn := range []string{"tryCommitPatch", "savePatch", "Initialize", "loadRules", "loadGroups",
 		"SetRule", "DeleteRule", "SetRules", "Batch", "SetRuleGroup", "DeleteRuleGroup",
 		"SetAllGroupBundles", "SetGroupBundle", "DeleteGroupBundle",
